@@ -81,6 +81,7 @@ def gen_cases(ctx):
         out.append({"k": "roms", "adv": adv, "field": "linear-x"})
         out.append({"k": "roms", "adv": adv, "field": "linear-t"})
         out.append({"k": "roms", "adv": adv, "field": "linear-t-v"})  # only v changes between the frames, u is steady
+        out.append({"k": "roms", "adv": adv, "field": "linear-t-multi"})  # several steps between two frames
     if not ctx.quick:
         for adv in ("EF", "RK2", "RK4"):
             out.append({"k": "order", "adv": adv})
@@ -180,7 +181,7 @@ def eval_roms(desc, ctx):
     d = ctx.subdir("c01roms_" + desc["adv"] + desc["field"])
     imax, jmax, N = 14, 8, 2
     dx, dt = 1000.0, 600.0
-    v, expect_y = None, 4.0
+    v, expect_y, nsteps = None, 4.0, 1
     xu = np.arange(imax - 1) + 0.5
     if desc["field"] == "linear-x":
         c = 0.2 * dx / dt
@@ -193,6 +194,14 @@ def eval_roms(desc, ctx):
         c = 0.5 * dx / dt
         u = np.stack([np.zeros((N, jmax, imax - 1)), np.full((N, jmax, imax - 1), c)]); times = [0, 600]
         expect = 7.0 + {"EF": 0.0, "RK2": 0.25, "RK4": 0.25}[desc["adv"]]
+    elif desc["field"] == "linear-t-multi":
+        # frames 4 steps apart, u grows linearly from 0 to c: step k of EF moves by c*(k/4)*dt/dx, RK2/RK4 integrate
+        # the linear growth exactly: c*((k + 1/2)/4)*dt/dx; three steps are taken
+        c = 0.5 * dx / dt
+        u = np.stack([np.zeros((N, jmax, imax - 1)), np.full((N, jmax, imax - 1), c)]); times = [0, 2400]
+        nsteps = 3
+        per = {"EF": [k / 4 for k in range(nsteps)], "RK2": [(k + 0.5) / 4 for k in range(nsteps)], "RK4": [(k + 0.5) / 4 for k in range(nsteps)]}[desc["adv"]]
+        expect = 7.0 + 0.5 * sum(per)
     else:  # steady u (the same in both frames), v grows linearly in time
         c = 0.5 * dx / dt
         u = np.full((2, N, jmax, imax - 1), 0.25 * dx / dt); times = [0, 600]
@@ -200,7 +209,7 @@ def eval_roms(desc, ctx):
         expect, expect_y = 7.25, 4.0 + {"EF": 0.0, "RK2": 0.25, "RK4": 0.25}[desc["adv"]]
     rf.write_roms(d / "f.nc", imax=imax, jmax=jmax, N=N, times=times, u=u, v=v, dx=dx)
     rf.write_release(d / "r.rls", [[0, 7.0, 4.0, 5.0]])
-    conf = rf.base_config(start=0, stop=int(dt), dt=int(dt), forcing_file=d / "f.nc", release_file=d / "r.rls", out_file=d / "o.nc", advection=desc["adv"])
+    conf = rf.base_config(start=0, stop=int(dt) * nsteps, dt=int(dt), forcing_file=d / "f.nc", release_file=d / "r.rls", out_file=d / "o.nc", advection=desc["adv"])
     # one step: read the state directly
     m = rl.run_conf(conf)
     X, Y = float(m.state.X[0]), float(m.state.Y[0])
